@@ -118,6 +118,43 @@ def gen_sequence(rng, j):
 
 PA_TABLE = [1e-7, 1e-6, 1e-5, 7.2e-5, 1e-3, 2.3e-1, 0.5]
 
+# relative stress gradients [1/mm]: mild notches (fracture-mechanics support factor n_bm clipped to 1: every point has the same component
+# curve) and sharp notches (n_bm > 1 from about G = 4..6 on: the knee of the component curve differs from point to point)
+G_MILD = [0.05, 2 / 15, 0.5, 1.5]
+G_SHARP = [4.0, 8.0, 15.0, 30.0]
+
+# labels of the batch points in the node_id level (the labels are arbitrary; the order of the points is the order of the ratios)
+LAYOUTS = ['range', 'gaps', 'offset', 'unsorted', 'range', 'sharpG', 'gaps']
+
+
+def gen_node_ids(rng, layout, n):
+    if layout == 'offset':
+        o = rng.choice([1, 10, 1000])
+        return list(range(o, o + n))
+    if layout == 'gaps':
+        return sorted(rng.sample(range(0, 60), n))
+    if layout == 'unsorted':
+        ids = rng.sample(range(0, 60), n)
+        if ids == sorted(ids):
+            ids.reverse()
+        return ids
+    return None
+
+
+def gen_G_per_point(rng, n, i0, G, force):
+    """one gradient per point, mild and sharp notches mixed; force: one point gets the sharpest notch (n_bm > 1 for every material of the
+    generator) unless the reference point has it, so that at least two component curves differ"""
+    Gs = [rng.choice(G_MILD + G_SHARP) for _ in range(n)]
+    Gs[i0] = G
+    others = [k for k in range(n) if k != i0]
+    if others:
+        k = rng.choice(others)
+        if force:
+            Gs[k] = G_SHARP[-1] if G < G_SHARP[-1] else G_MILD[0]
+        else:
+            Gs[k] = rng.choice(G_MILD if G in G_SHARP else G_SHARP)
+    return Gs
+
 
 def gen_params(rng, j):
     p = {}
@@ -148,11 +185,31 @@ def smaller_PA(rng, p):
     return pa * rng.choice([0.5, 0.1, 0.9, 0.01])
 
 
+def pa_chain(rng, s, p, G, skind):
+    """the whole table of failure probabilities, pair by pair, for a load distribution with sizeable scatter (gamma_L then depends on P_A as
+    strongly as gamma_M): normal with s_L up to 0.48 L_max (P_L = 2.5 %: the given sequence is the mean + 2 s_L one, 2 s_L < L_max keeps
+    gamma_L positive for every P_A) or up to 0.9 L_max (P_L = 50 %), log-normal with LSD_s up to 0.25.  The sequence is scaled down so that
+    the loads after gamma_L (up to about 4) stay in the range of the other cases."""
+    m = max(abs(v) for v in s)
+    seq = [round(v * rng.uniform(60, 140) / m, 4) for v in s]
+    L = max(abs(v) for v in seq)
+    q = {k: v for k, v in p.items() if k not in ('s_L', 'LSD_s', 'P_L', 'P_A')}
+    q['P_L'] = rng.choice([2.5, 50])
+    if 'LSD_s' in p:
+        q.update({'s_L': None, 'LSD_s': rng.choice([0.05, 0.1, 0.15, 0.25])})
+    else:
+        f = rng.choice([0.15, 0.3, 0.42, 0.48]) if q['P_L'] == 2.5 else rng.choice([0.2, 0.45, 0.7, 0.9])
+        q['s_L'] = round(f * L, 3)
+    specs = [{'seq': seq, 'ratios': None, 'G': G, 'params': dict(q, P_A=pa)} for pa in reversed(PA_TABLE)]
+    return [{'kind': 'pa', 'specs': [specs[k], specs[k + 1]], 'skind': skind, 'chain': True} for k in range(len(specs) - 1)]
+
+
 def gen_items(rng, j, thorough):
     """the relation instances of one generated case: list of dicts {kind, specs, ...} (JSON serialisable)"""
     s, skind = gen_sequence(rng, j)
     p = gen_params(rng, j)
-    G = rng.choice([2 / 15, 0.05, 0.5, 1.5])
+    layout = LAYOUTS[j % len(LAYOUTS)]
+    G = rng.choice(G_MILD + G_MILD + G_SHARP)
     ref = {'seq': s, 'ratios': None, 'G': G, 'params': p}
     items = []
     # batch
@@ -160,12 +217,14 @@ def gen_items(rng, j, thorough):
     ratios = [round(rng.uniform(0.2, 3.0), 2) for _ in range(n)]
     i0 = rng.randrange(n)
     ratios[i0] = 1.0
-    if rng.random() < 0.4:
-        Gs = [rng.choice([0.05, 2 / 15, 0.5, 1.5]) for _ in range(n)]
-        Gs[i0] = G
+    if layout == 'sharpG' or rng.random() < 0.4:
+        Gs = gen_G_per_point(rng, n, i0, G, layout == 'sharpG')
     else:
         Gs = G
     b = {'seq': s, 'ratios': ratios, 'G': Gs, 'params': p}
+    ids = gen_node_ids(rng, layout, n)
+    if ids is not None:
+        b['node_ids'] = ids
     items.append({'kind': 'batch', 'specs': [ref, b], 'i': i0, 'skind': skind})
     others = [k for k in range(n) if k != i0]
     for k in (others if thorough else others[:1]):
@@ -185,6 +244,9 @@ def gen_items(rng, j, thorough):
         items.append({'kind': 'pa', 'specs': [ref, dict(ref, params=dict(p, P_A=pa))], 'skind': skind})
     if abs(p['P_A'] - 0.5) < 1e-9:
         items.append({'kind': 'quantiles', 'specs': [ref], 'skind': skind})
+    # the table of failure probabilities pair by pair, with a load distribution of sizeable scatter
+    if (p.get('s_L') is not None or 'LSD_s' in p) and (thorough or j % 2 == 0):
+        items += pa_chain(rng, s, p, G, skind)
     return items
 
 
@@ -344,7 +406,19 @@ def cls_hcm_minmax_first_node(d):
     return False
 
 
+def cls_unsorted_node_ids(d):
+    """batch whose node_id labels are not in ascending order: maximum_absolute_load (groupby('node_id')) and the zero sample prepended for the
+    first HCM run sort the per-point values by label while the load samples are used in the caller's order: look-up tables, gamma_L and the
+    initial sample land on the wrong points"""
+    it = d['item']
+    if it['kind'] != 'batch':
+        return False
+    ids = it['specs'][1].get('node_ids')
+    return bool(ids) and list(ids) != sorted(ids)
+
+
 def register_classes(res):
+    res.classes['unsorted_node_ids'] = cls_unsorted_node_ids
     res.classes['hcm_minmax_strain_first_node'] = cls_hcm_minmax_first_node
     res.classes['praj_shared_class_max'] = cls_praj_shared_class_max
     res.classes['class_edge_batch'] = cls_class_edge_batch
@@ -378,9 +452,11 @@ def contract_checks(res, items, table):
              'contract w_P / w_Z: curve N antitone in P and isotone in the knee',
              'contract gamma_ok: effective loads after gamma_L and c grow with the scale factor, gamma_L > 0',
              'model aggregators: table maximum per point (a2 = own); class maximum per point or batch maximum (a3)',
-             'contract look-up tables: binned notch law monotone in the load, table maximum = maximum absolute load']
+             'contract look-up tables: binned notch law monotone in the load, table maximum = maximum absolute load',
+             'model knee per point (Layout.v, rows ordered (hysteresis, point)): N of row (h, i) = 1e3 (P_RAM / P_RAM_Z[i])^(1/d) with the knee of point i']
     counts = dict.fromkeys(names, 0)
     curve_jobs, curve_meta = [], []
+    knee_seen = set()
     for it in items:
         sums = [table.get(key(s)) for s in it['specs']]
         if any(s is None or 'error' in s for s in sums):
@@ -420,7 +496,7 @@ def contract_checks(res, items, table):
                     if len(x) != len(y) or not all(close(u, v, 1e-12) or (math.isnan(u) and math.isnan(v)) for u, v in zip(x, y)):
                         fail(names[1], {'item': it, 'branch': t, 'column': col})
                         break
-        if it['kind'] == 'batch':
+        if it['kind'] == 'batch' and not cls_unsorted_node_ids({'item': it}):     # known class: tables sorted by label, not by position
             b, i = sums[1], it['i']
             if all(x.get(k_) for x in (a, b) for k_ in ('RAM_Lmax', 'RAJ_Lmax')):
                 counts[names[6]] += 1
@@ -432,6 +508,35 @@ def contract_checks(res, items, table):
                 max_ok = close(km_b[i], max(km_b), 1e-12) and max(km_b) >= km_a[0] * (1 - 1e-9)
                 if not (own_ok or max_ok):
                     fail(names[6], {'item': it, 'klass_max batch': km_b, 'single': km_a})
+        if it['kind'] == 'batch' and key(it['specs'][1]) not in knee_seen:
+            knee_seen.add(key(it['specs'][1]))
+            b = sums[1]
+            col, Z = b['RAM_col'], b.get('P_RAM_Z')
+            if Z and col.get('N') and col.get('P_RAM'):
+                counts[names[8]] += 1
+                # for P_A = 0.5 the N column is left by the last call of N_max_bearable: the knee shifted by knee_PA (Pipeline.v) for one
+                # of the reported probabilities -- one common factor for all points
+                shifts = [1.0] + ([knee_shift(it['specs'][1], q) for q in (1e-6, 0.1, 0.5, 0.9)] if 'RAM_N_90' in b else [])
+                ok_f = first_bad = None
+                for f in shifts:
+                    bad_row = None
+                    for i in range(b['n_points']):
+                        for Pv, Nv in zip(col['P_RAM'][i], col['N'][i]):
+                            if not (Pv > 0 and Z[i] > 0):
+                                continue
+                            zi = Z[i] * f
+                            want = 1e3 * (Pv / zi) ** (1 / (b['d_1'] if Pv >= zi else b['d_2']))
+                            if not close(Nv, want, 1e-9):
+                                bad_row = {'item': it, 'point': i, 'P_RAM': Pv, 'knees': Z, 'N implementation': Nv, 'N with the knee of the point': want}
+                                break
+                        if bad_row:
+                            break
+                    if bad_row is None:
+                        ok_f = f
+                        break
+                    first_bad = first_bad or bad_row
+                if ok_f is None:
+                    fail(names[8], first_bad)
         # per-summary checks on the reference call
         if it['kind'] in ('scale', 'refine'):
             counts[names[3]] += 1
@@ -530,6 +635,16 @@ def gamma_model(params, M):
             return (M + fac * p['s_L']) / M          # gamma_normal alpha M
         return max(1.0, 10 ** (fac * p['LSD_s']))     # gamma_const
     return 1.1 if abs(p['P_L'] - 2.5) < 1e-9 else 1.0  # gamma_const
+
+
+def knee_shift(spec, pa):
+    """factor of knee_PA (Pipeline.v): 10^(lg f25 - (0.8 beta(pa) - 2) 0.08), the knee used by N_max_bearable(pa) of the P_RAM calculator"""
+    import pylife.strength.fkm_nonlinear.parameter_calculations as PC
+    import pylife.strength.fkm_nonlinear.constants as K
+    import pandas as pd
+    mg = dict(fkmnl.BASE_PARAMS, **{k: v for k, v in (spec.get('params') or {}).items() if v is not None})['MatGroupFKM']
+    f25 = float(K.for_material_group(pd.Series({'MatGroupFKM': mg})).f_25percent_material_woehler_RAM)
+    return 10 ** (math.log10(f25) - (0.8 * float(PC.compute_beta(pa)) - 2) * 0.08)
 
 
 def gamma_contract(res, items, n):
@@ -664,8 +779,10 @@ def run(res):
                         'P_RAJ crack-opening loop / class summation not modelled beyond the dependence on the shared class maximum']
     res.cov['rule'] = ('cases: sequence = library test sequence (round numbers, loads on class edges) | the same jittered by <= 3 % and rescaled | random (2..16 samples, '
                        'amplitude 120..420, some with offset) | ties (random with repeated / nearly repeated extremes); parameters: load distribution normal/lognormal/blanket/none, P_A from the FKM table or free, P_L, R_m, material group, '
-                       'R_z, K_p, c, G; per case the relations batch (2..5 points, ratios 0.2..3, uniform or per-point G, reference point at a random position; quick: 2 points compared, '
-                       'thorough: all), refine (0..3 samples per segment: interpolated or repeated), scale (c in 1+1e-4..2), rougher R_z, smaller P_A, N_10<=N_50<=N_90 when P_A=0.5; '
+                       'R_z, K_p, c, G (0.05..30 1/mm: mild and sharp notches); per case the relations batch (2..5 points, ratios 0.2..3, uniform or per-point G with different component '
+                       'curves, node_id labels 0..n-1 / offset / with gaps / not ascending, reference point at a random position; quick: 2 points compared, '
+                       'thorough: all), refine (0..3 samples per segment: interpolated or repeated), scale (c in 1+1e-4..2), rougher R_z, smaller P_A (one random pair; for every second case with a load distribution additionally all 6 adjacent pairs of the P_A table with '
+                       'scatter s_L up to 0.48 / 0.9 L_max or LSD_s up to 0.25), N_10<=N_50<=N_90 when P_A=0.5; '
                        'non-trivial = relation instance with a finite positive lifetime on one side (distinct spec pairs counted)')
     common.standard_proof_stage(res, 'C10')
 
@@ -682,6 +799,24 @@ def run(res):
     for it in items:
         kinds[it['kind']] = kinds.get(it['kind'], 0) + 1
     res.cov['relation_instances'] = kinds
+    # measured reach of the generator dimensions added for per-point data: batches whose points have different component curves
+    # (sharp notches, n_bm > 1), node_id label layouts, P_A table chains with their largest load scatter
+    bspecs = {key(it['specs'][1]): it['specs'][1] for it in items if it['kind'] == 'batch'}
+    dk = 0
+    for k_, sp in bspecs.items():
+        z = (table.get(k_) or {}).get('P_RAM_Z') or []
+        if len({round(v, 9) for v in z}) > 1:
+            dk += 1
+    res.cov['batches'] = len(bspecs)
+    res.cov['batches_with_distinct_curve_knees'] = dk
+    lay = {'default 0..n-1': 0, 'ascending (offset / gaps)': 0, 'not ascending': 0}
+    for sp in bspecs.values():
+        ids = sp.get('node_ids')
+        lay['default 0..n-1' if not ids else 'ascending (offset / gaps)' if list(ids) == sorted(ids) else 'not ascending'] += 1
+    res.cov['node_id_layouts'] = lay
+    chains = [it for it in items if it.get('chain')]
+    res.cov['pa_chain_pairs'] = len(chains)
+    res.cov['pa_chain_pairs_finite'] = sum(1 for it in chains if nontrivial(it, [table[key(s_)] for s_ in it['specs']]))
     res.cov['sequence_kinds'] = {k: sum(1 for it in items if it.get('skind') == k and it['kind'] == 'refine') for k in ('suite', 'jitter', 'random', 'ties')}
 
     bad = contract_checks(res, items, table)
